@@ -232,6 +232,18 @@ func (r *e1run) checkStep() {
 	nseg := len(r.model.cuts)
 	msn0 := r.msn0()
 
+	if r.faulted {
+		// after an injected storage fault only the retention rules are evaluated
+		if st.avail {
+			for si, po := range st.streams {
+				if po.mp != nil {
+					r.checkC04(si, k)
+				}
+			}
+		}
+		r.checkC18Retention(k)
+		return
+	}
 	// C02(b): cuts happen exactly when the rule says, observed through the muxer's own segment counter
 	for si, s := range m.streams {
 		got := int(s.nextSegmentID) - msn0
